@@ -180,6 +180,20 @@ func checkSubscripts(c *h.Ctx, docText string, isArray bool, elems []string, sub
 			} else {
 				c.Held("exists-agrees")
 			}
+			// ... and asked for the first item only: every subscript of the list
+			// is still a subscript (a later one that is out of bounds, or no
+			// number, fails the accessor as it does for Query)
+			of := h.Call("first", p, h.Decode(docText, useNum), h.Opts{})
+			c.Eval(1)
+			var first any
+			if len(o.Items) > 0 {
+				first = o.Items[0]
+			}
+			if of.Class != h.Panic && (of.Class != o.Class || o.Class == h.OK && canonJSON(of.Val) != canonJSON(first)) {
+				c.Violate("exists-agrees", h.F("mode", modeName(lax), "query", o.Class, "first", of.Class), fmt.Sprintf("Query(%s) on %s = %s but First = %s", ptxt, docText, o.Summary(), of.Summary()), cs)
+			} else {
+				c.Held("exists-agrees")
+			}
 		}
 		expErr := wrapErr || !okBounds
 		wantItems := want
@@ -867,6 +881,14 @@ func runC14(c *h.Ctx) {
 		{"$[$.size() - 1]", `[1,2,3]`, "[#3]"},
 		{"$[$[1][last]]", `[7,[0,0]]`, "[#7]"},
 		{"$[0 to $[last]][last]", `[[1,2],[3,4],1]`, "[#2 | #4]"},
+		// a subscript expression that tries several candidates and keeps one:
+		// it is one number, whichever candidate it was
+		{"$.a[$.idx[0, 1] ? (@ >= 2)]", `{"a":[10,20,30],"idx":[2,0]}`, "[#30]"},
+		{"$.a[$.idx[0, 1] ? (@ >= 2)]", `{"a":[10,20,30],"idx":[0,2]}`, "[#30]"},
+		{"$.a[$.idx[0 to 1] ? (@ < 2)]", `{"a":[10,20,30],"idx":[1,5]}`, "[#20]"},
+		{"$.a[$.recs[0 to 1] ? (exists(@.pos)).pos]", `{"a":[10,20,30],"recs":[{"pos":1},{"x":0}]}`, "[#20]"},
+		{"$.a[0 to $.idx[0, 1] ? (@ >= 2)]", `{"a":[10,20,30],"idx":[2,0]}`, "[#10 | #20 | #30]"},
+		{"$.a[$.idx[last, 0] ? (@ > 0)]", `{"a":[10,20,30],"idx":[1,0]}`, "[#20]"},
 	}
 	for i, nc := range nested {
 		if !c.Mine(i) {
